@@ -8,6 +8,7 @@ import (
 	"bufio"
 	"encoding/json"
 	"fmt"
+	"math/rand"
 	"os"
 	"path/filepath"
 	"sort"
@@ -373,6 +374,111 @@ func Replay(bno int, steps []Step, root string, tw *trace.Writer, opts Opts) (dr
 	rp.mu.Unlock()
 	time.Sleep(2 * time.Millisecond)
 	return rp.drift, false
+}
+
+// Stress runs free concurrency (no gates) on a fresh manager: nReq goroutines
+// issuing requests, a deleter, idle timers with random short durations. It
+// reaches interleavings inside regions that have no yield point; the events
+// are validated by the same monitor.
+func Stress(round int, seed int64, root string, tw *trace.Writer, opts Opts) (stuck bool) {
+	dir := filepath.Join(root, fmt.Sprintf("s%d", round))
+	os.RemoveAll(dir)
+	defer os.RemoveAll(dir)
+	rng := rand.New(rand.NewSource(seed))
+	var rngMu sync.Mutex
+	rnd := func(n int) int { rngMu.Lock(); defer rngMu.Unlock(); return rng.Intn(n) }
+	rp := &replay{root: dir, tw: tw, sched: gate.New(), opts: opts, lsIdx: map[any]int{}, timers: map[int]*time.Timer{}, lsOf: map[string]int{}}
+	rp.sched.FreeRun()
+	rp.sm = cluster.NewShardManager(cluster.ShardManagerConfig{RootDir: dir, ShardTimeout: 3600, MaxCacheSize: -1})
+	rp.col = models.Collection{UserId: "u", Id: "c", Replicas: 1, IndexSchema: models.IndexSchema{},
+		UserPlan: models.UserPlan{Name: "verif", MaxCollections: 1, MaxCollectionPointCount: 1000, MaxPointSize: 1000}}
+	cluster.VerifYield = rp.hookYield
+	cluster.VerifTimer = func(d string, t *time.Timer) *time.Timer {
+		nt := rp.hookTimer(d, t)
+		if nt != t {
+			nt.Reset(time.Duration(rnd(4000)) * time.Microsecond)
+		}
+		return nt
+	}
+	defer func() { cluster.VerifYield = nil; cluster.VerifTimer = nil }()
+	tw.Emit("NewBehaviour", M{"b": round, "steps": []string{"stress"}, "backups": 0})
+	nReq := 3 + rnd(5)
+	for i := 1; i <= nReq; i++ {
+		name := fmt.Sprintf("r%d", i)
+		rp.actors = append(rp.actors, name)
+		delay := time.Duration(rnd(1500)) * time.Microsecond
+		rp.sched.Go(name, func() {
+			time.Sleep(delay)
+			ran := false
+			err := rp.sm.DoWithShard(rp.col, shardID, func(s *shard.Shard) error {
+				ran = true
+				rp.mu.Lock()
+				ls := rp.lsOf[name]
+				rp.mu.Unlock()
+				_, e0 := s.Info()
+				rp.tw.Emit("RunEnter", M{"r": name, "ls": ls, "ok": b2i(e0 == nil)})
+				time.Sleep(time.Duration(rnd(800)) * time.Microsecond)
+				_, e1 := s.Info()
+				rp.tw.Emit("RunExit", M{"r": name, "ls": ls, "ok": b2i(e1 == nil)})
+				return nil
+			})
+			rp.tw.Emit("Return", M{"r": name, "ok": b2i(err == nil), "ran": b2i(ran)})
+		})
+	}
+	for d := 0; d < 1+rnd(2); d++ {
+		delay := time.Duration(rnd(2500)) * time.Microsecond
+		name := fmt.Sprintf("del%d", d+1)
+		rp.actors = append(rp.actors, name)
+		rp.sched.Go(name, func() {
+			time.Sleep(delay)
+			_, err := rp.sm.DeleteCollectionShards(rp.col)
+			rp.tw.Emit("DelReturn", M{"ok": b2i(err == nil)})
+		})
+	}
+	pending := rp.sched.AllDone(rp.actors, 4*time.Second)
+	if len(pending) > 0 {
+		dump := gate.Dump()
+		info := gate.BlockedOnLock(dump, rp.sched.GoIDs())
+		who := []string{}
+		blocked := true
+		for _, a := range pending {
+			who = append(who, a+": "+info[a])
+			if !strings.Contains(info[a], "sync.") && !strings.Contains(info[a], "flock") {
+				blocked = false
+			}
+		}
+		sort.Strings(who)
+		tw.Emit("Stuck", M{"who": who, "confirmed": b2i(blocked)})
+		os.WriteFile(filepath.Join(root, fmt.Sprintf("stuck-s%d.dump", round)), []byte(dump), 0644)
+		return true
+	}
+	// afterwards new requests can load the shard again (a request that meets an
+	// unload in progress gets a clean error: retry for a while)
+	probeDone := make(chan error, 1)
+	go func() {
+		var err error
+		for i := 0; i < 400; i++ {
+			err = rp.sm.DoWithShard(rp.col, shardID, func(s *shard.Shard) error { _, e := s.Info(); return e })
+			if err == nil {
+				break
+			}
+			time.Sleep(2 * time.Millisecond)
+		}
+		probeDone <- err
+	}()
+	select {
+	case err := <-probeDone:
+		tw.Emit("Probe", M{"ok": b2i(err == nil)})
+	case <-time.After(8 * time.Second):
+		tw.Emit("Probe", M{"ok": 0, "timeout": 1})
+	}
+	rp.mu.Lock()
+	for _, t := range rp.timers {
+		t.Reset(0)
+	}
+	rp.mu.Unlock()
+	time.Sleep(3 * time.Millisecond)
+	return false
 }
 
 // ReadBehaviours reads one JSON array of [action, arg] pairs per line.
